@@ -814,15 +814,13 @@ fn dynamic_time_units(
     converter: &Converter,
 ) -> Result<f64, ParseTimeError> {
     // TODO maybe make this configurable? It will work for 99% of users...
-    let minutes = converter
-        .find_unit("min")
-        .or_else(|| converter.find_unit("minute"))
-        .or_else(|| converter.find_unit("minutes"))
-        .or_else(|| converter.find_unit("m"))
+    // the first of these keys that is a time unit, another kind of unit may
+    // own one of them
+    let minutes = ["min", "minute", "minutes", "m"]
+        .into_iter()
+        .filter_map(|key| converter.find_unit(key))
+        .find(|unit| unit.physical_quantity == PhysicalQuantity::Time)
         .ok_or(ParseTimeError::MinutesNotFound)?;
-    if minutes.physical_quantity != PhysicalQuantity::Time {
-        return Err(ParseTimeError::MinutesNotFound);
-    }
     let (value, _) = converter.convert(
         ConvertValue::Number(value),
         ConvertUnit::Key(unit),
